@@ -542,6 +542,14 @@ class PathState(object):
                 if ob is not None:
                     return ob
         r, model, dt = self._check(z3.Not(g), *self.guards)
+        if r == z3.sat and S.involves_abstract([g] + list(self.pc)):
+            # the counter-model involves the abstract term of a structured string, about which
+            # the solver knows nothing: believed only if evaluating the structure under the model
+            # confirms it, otherwise the obligation is undecided (never a violation)
+            if not self._confirmed_on_structure(g, model):
+                ob = Obligation(name, "unknown", (detail or "") + " (counter-model over an abstract structured-string term, not confirmed on the structure)", kind=kind)
+                ob.backend = "z3"
+                return ob
         if r == z3.unsat:
             ob = Obligation(name, "discharged", detail, kind=kind)
         elif r == z3.sat:
@@ -550,6 +558,34 @@ class PathState(object):
             ob = Obligation(name, "unknown", (detail or "") + " solver: unknown", kind=kind)
         ob.backend = "z3"
         return ob
+
+    def _confirmed_on_structure(self, g, model):
+        """the goal is (or contains exactly one) registered string equality, false under the
+        model, and both sides evaluate to different Python strings under the model; and the path
+        condition itself does not rest on an abstract term"""
+        if S.involves_abstract(list(self.pc)):
+            return False
+        found = []
+        seen = set()
+        stack = [g]
+        while stack and len(seen) < 20000:
+            t = stack.pop()
+            k = t.get_id()
+            if k in seen:
+                continue
+            seen.add(k)
+            if k in S.EQ_REG:
+                found.append(S.EQ_REG[k])
+                continue
+            if not z3.is_quantifier(t):
+                stack.extend(t.children())
+        if len(found) != 1:
+            return False
+        z, a, b = found[0]
+        if not z3.is_false(model.eval(z, model_completion=True)):
+            return False
+        ca, cb = S.concrete_under(a, model), S.concrete_under(b, model)
+        return ca is not None and cb is not None and ca != cb
 
     def fail(self, name, detail, status="refuted", model_from_pc=True, kind="vc"):
         """an obligation that fails on this path whenever the path is feasible"""
@@ -560,6 +596,11 @@ class PathState(object):
                 return  # path infeasible after all
             if r == z3.sat:
                 model = self.engine.snapshot_model(self, m)
+        if status == "refuted" and S.involves_abstract(list(self.pc) + list(self.guards)):
+            # the path was taken on the strength of an abstract structured-string term: it may
+            # not exist, so what happens on it is undecided rather than a violation
+            status = "unknown"
+            detail = (detail or "") + " (on a path decided through an abstract structured-string term)"
         ob = Obligation(name, status, detail, model=model, kind=kind)
         ob.backend = "path"
         ob.path = list(self.trace[: self.pos])
@@ -1197,6 +1238,11 @@ class Engine(object):
             return z3.simplify(v.truth_z())
         if type(v).__name__ == "SymSet":
             return z3.simplify(_or([g for g, _ in v.items]))
+        if isinstance(v, S.SCat):
+            e = S.scat_empty_z(v)
+            if e is None:
+                raise Unsupported("truth value of a structured string with possibly empty pieces")
+            return z3.simplify(z3.Not(e))
         if isinstance(v, SStr):
             return z3.simplify(v.z != lit(""))
         if isinstance(v, SInt):
@@ -2131,6 +2177,9 @@ class Engine(object):
             z = S.structural_eq(l, r, eq_z3) if isinstance(l, (S.SCat, str, FV)) and isinstance(r, (S.SCat, str, FV)) else None
             if z is not None:
                 return mk_bool(z)
+            z = eq_z3(l, r)
+            S.EQ_REG[z.get_id()] = (z, l, r)
+            return mk_bool(z)
         return mk_bool(eq_z3(l, r))
 
     def contains(self, container, item, st):
@@ -2378,6 +2427,14 @@ class Engine(object):
         return self.call(fn, args, kwargs, st, node)
 
     def call(self, fn, args, kwargs, st, node=None):
+        if isinstance(fn, FV):
+            # a finite choice of callables (e.g. `cls = A if c else B`): one fork per callable
+            if st.guards:
+                raise NeedFork("call of a conditionally chosen callable")
+            vals = list(fn.values)
+            for k, v in enumerate(vals):
+                if k == len(vals) - 1 or st.decide(fv_guard_of(fn, lambda x, v=v: x is v), "which callable"):
+                    return self.call(v, args, kwargs, st, node)
         if isinstance(fn, BoundMethod):
             return self.call_function(fn.func, [fn.recv] + args, kwargs, st)
         if isinstance(fn, PyFunc):
